@@ -795,7 +795,6 @@ def migrate_ft(w, r, ftw, ftr, v, flags):
         if ftr[1][0] == "ref":
             d = r.defs[ftr[1][1]]
             if d.kind == "E" and find_variant(d, v[1][1]) is None:
-                if d.index_only: flags.add("f9")
                 return None                                  # guarantee 4: unknown variant in an optional field -> None
         return ("some", migrate_ft(w, r, ftw[1], ftr[1], v[1], flags))
     if ftr[0] == "seq": return [migrate_ft(w, r, ftw[1], ftr[1], x, flags) for x in v]
@@ -814,7 +813,6 @@ def migrate_fields(w, r, fw, fr, encw, encr, vs, flags):
             out.append(migrate_ft(w, r, g.ft, f.ft, vs[p], flags))
         else:
             out.append(nil_value(f))                         # guarantee 3: absent optional -> None
-            if f.tag is not None and encw == "a" and f.idx < wlen: flags.add("f10")
     return out
 
 def migrate_def(w, r, k, v, flags):
@@ -1015,10 +1013,6 @@ def values_for(sc, k, rng, tier, per=1):
 
 def group_flags(fields, enc, vs, flags):
     fv = [(f, x) for f, x in zip(fields, vs) if not f.skip]
-    present = [f.idx for f, x in fv if not field_is_nil(f, x)]
-    hw = lambda n: 0 if n < 24 else 1 if n < 256 else 2 if n < 65536 else 4
-    if enc == "m" and hw(len(fv)) != hw(len(present)): flags.add("f6")     # declared and present count need different heads
-    if enc == "a" and any(f.tag is not None and field_is_nil(f, x) and present and f.idx < max(present) for f, x in fv): flags.add("f7")
     if any(f.ft == ("sp", "aliasoptvec") and x is None for f, x in fv): flags.add("alias")
 
 def ft_flags(sc, ft, v, flags):
